@@ -301,8 +301,13 @@ class Gen08:
         elif k in ("use", "reuse"):
             if not self.shape_ids:
                 return self.shape(top, indent)
-            s = '<%s id="%s" href="#%s" x="%s" y="%s"/>' % (k, eid, r.choice(self.shape_ids), fmt(self.g(-10, 10)), fmt(self.g(-10, 10)))
+            # x and y are independently optional on <use>/<reuse>
+            v = r.choice(["xy", "xy", "x", "y", "none"])
+            pos = {"xy": ' x="%s" y="%s"' % (fmt(self.g(-10, 10)), fmt(self.g(-10, 10))), "x": ' x="%s"' % fmt(self.g(-40, 40)),
+                   "y": ' y="%s"' % fmt(self.g(-40, 40)), "none": ""}[v]
+            s = '<%s id="%s" href="#%s"%s/>' % (k, eid, r.choice(self.shape_ids), pos)
             self.feats.add(k)
+            self.feats.add(k + ".pos=" + v)
         else:
             if not self.shape_ids:
                 return self.shape(top, indent)
@@ -454,7 +459,7 @@ def geom_fstr(v):
 def run_shard(ctx):
     acc = ctx.acc
     rng = ctx.rng("docs")
-    n = 3000 if ctx.quick() else 100000
+    n = 12000 if ctx.quick() else 250000
     for j in range(n):
         if ctx.out_of_time():
             acc.notes.append("time budget reached after %d docs" % j)
